@@ -196,7 +196,7 @@ _EXCEL_NOTE = ('Bounded in the table layout (one instrument configuration: FSC-H
                'library steps uninterpreted with the exception classes of their own contracts; plot=False, verbose=False; '
                'process_beads_table, add_*_stats and generate_histograms_table are covered by the bounded stand-in only.')
 PROPS['C10'] = {
-    'contracts': ['contracts.excel:ProcessSamples', 'contracts.excel:GenerateHistograms'],
+    'contracts': ['contracts.excel:ProcessSamples', 'contracts.excel:ProcessBeads', 'contracts.excel:GenerateHistograms'],
     'bounded': True,
     'level': 'other',
     'explanation': 'Proved for an arbitrary row of a Samples table with any number of rows (loop cut, arbitrary prior state) and symbolic '
@@ -207,7 +207,7 @@ PROPS['C10'] = {
     'level_note': _EXCEL_NOTE,
 }
 PROPS['C11'] = {
-    'contracts': ['contracts.excel:ProcessSamples'],
+    'contracts': ['contracts.excel:ProcessSamples', 'contracts.excel:ProcessBeads'],
     'bounded': True,
     'level': 'other',
     'explanation': 'Proved for an arbitrary row (loop cut): no exception escapes the batch whatever the row contains; the row ends as an '
